@@ -247,3 +247,74 @@ def namedtuple_battery(v: Verdict, prop: str, n_cases: int):
                     continue
                 break
     v.coverage["namedtuple_battery"] = hist
+
+
+# ------------------------------------------------------------------------------------ attribute types without a structure hook
+
+def unsupported_field_battery(v: Verdict):
+    """C04, "hook creation cannot fail in one mode only" / same acceptance: classes and TypedDicts with an attribute whose type has NO
+    structure hook -- a bare (unparametrised) generic attrs class / dataclass / TypedDict (hook creation raises "Missing type for generic
+    argument"), a plain class, a Protocol -- directly, as NotRequired / defaulted, inside List / Dict / Optional; payloads with and
+    without that key.  Whatever the outcome is (creation fails, call fails, accepted), both validation modes must have the same."""
+    import dataclasses
+    from typing import Generic, NotRequired, Optional, Protocol, TypedDict, TypeVar
+    from cattrs import Converter
+    T_ = TypeVar("T_")
+
+    @attrs.define
+    class UBox(Generic[T_]):
+        item: T_
+
+    @dataclasses.dataclass
+    class UDBox(Generic[T_]):
+        item: T_
+
+    class UTBox(TypedDict, Generic[T_]):
+        item: T_
+
+    class UPlain:
+        def __init__(self, item=None):
+            self.item = item
+
+    class UProto(Protocol):
+        def f(self) -> int: ...
+    hist = {"cases": 0, "outcomes": {}}
+    unsupported = [("bare generic attrs class", UBox), ("bare generic dataclass", UDBox), ("bare generic TypedDict", UTBox), ("plain class", UPlain), ("Protocol", UProto)]
+    shapes = [("direct", lambda u: u), ("List", lambda u: List[u]), ("Dict", lambda u: Dict[str, u]), ("Optional", lambda u: Optional[u])]
+    payload_of = {"direct": {"item": 1}, "List": [{"item": 1}], "Dict": {"k": {"item": 1}}, "Optional": {"item": 1}}
+    n = 0
+    for uname, U in unsupported:
+        for sname, shape in shapes:
+            for optional in (False, True):
+                for kind in ("attrs", "dataclass", "TypedDict"):
+                    n += 1
+                    ft = shape(U)
+                    if kind == "attrs":
+                        cl = attrs.make_class(f"UF{n}", {"n": attrs.field(type=int), "u": attrs.field(type=ft, default=None) if optional else attrs.field(type=ft)})
+                    elif kind == "dataclass":
+                        cl = dataclasses.make_dataclass(f"UF{n}", [("n", int), ("u", ft, dataclasses.field(default=None)) if optional else ("u", ft)])
+                    else:
+                        cl = TypedDict(f"UF{n}", {"n": int, "u": NotRequired[ft] if optional else ft})
+                    payloads = [{"n": "1", "u": payload_of[sname]}, {"n": "1"}, {"n": "1", "u": None}]
+                    for p in payloads:
+                        res = {}
+                        for dv in (True, False):
+                            conv = Converter(detailed_validation=dv)
+                            try:
+                                hook = conv.get_structure_hook(cl)
+                            except Exception as e:      # noqa
+                                res[dv] = ("hook creation raised",)
+                                continue
+                            try:
+                                r = hook(dict(p), cl)
+                                res[dv] = ("ok", repr(r))
+                            except Exception as e:      # noqa
+                                res[dv] = ("call raised",)
+                        hist["cases"] += 1
+                        hist["outcomes"][res[True][0]] = hist["outcomes"].get(res[True][0], 0) + 1
+                        v.count(repr(("unsupported", uname, sname, optional, kind, repr(p))), True)
+                        if res[True] != res[False]:
+                            v.violation("detailed_validation changes hook creation, acceptance or the result (attribute type without a structure hook)",
+                                        {"battery": "UNSUPPORTED-FIELD", "class_kind": kind, "attribute": f"u: {'NotRequired / defaulted ' if optional else ''}{sname} of a {uname}",
+                                         "payload": repr(p), "detailed": repr(res[True]), "fast": repr(res[False])})
+    v.coverage["unsupported_field_battery"] = hist
